@@ -22,6 +22,29 @@ KANI_CONTRACTS = {
 
 KANI_GROUP_DEPS = {'k_peg': ['refpeg', 'peg_common']}
 
+
+# ---- shared harness lists ---------------------------------------------------------------------------------------
+NB_PEG = [
+    ('nb_peg', 'nb_peg_seq3', 'a ~ b ~ a with skip; all strings<=8 chars over {a,b,space}', 'q'),
+    ('nb_peg', 'nb_peg_seq2_atomic', '@{a ~ b}; all strings<=7 chars over {a,b,space}', 'q'),
+    ('nb_peg', 'nb_peg_rep12', 'a{1,2} with skip; all strings<=8 chars', 'q'),
+    ('nb_peg', 'nb_peg_rep_choice', '(a | b ~ a)+; all strings<=8 chars', 'q'),
+    ('nb_peg', 'nb_peg_push_pop', 'PUSH(a|b) ~ (POP ~ b | PEEK ~ DROP); all strings<=8 chars over {a,b}', 'q'),
+    ('nb_peg', 'nb_peg_pred', 'PUSH(a){0,2} ~ &POP ~ !b ~ PEEK_ALL; all strings<=8 chars over {a,b}', 'q'),
+    ('nb_peg', 'nb_peg_slice', 'PUSH(a|b){0,3} ~ PEEK[0..1] ~ PEEK[-1..] ~ POP_ALL; all strings<=9 chars over {a,b}', 'q'),
+    ('nb_peg', 'nb_peg_leaf', 'insensitive ~ (range | ANY) ~ NEWLINE? ~ skip-until; all strings<=5 chars over 8 chars incl. CR LF 2- and 4-byte', 'q'),
+    ('nb_peg', 'nb_peg_nest', 'SOI ~ (a{1,2} ~ b?)* ~ EOI with skips; all strings<=8 chars', 'q'),
+]
+NB_PEG_STACK = [t for t in NB_PEG if t[1] in ('nb_peg_push_pop', 'nb_peg_pred', 'nb_peg_rep_choice', 'nb_peg_slice')]
+NB_PEG_D1 = ('nb_peg', 'nb_peg_d1', 'PUSH(a) ~ ((POP? ~ b) | PEEK); all strings<=6 chars over {a,b}', 'q')
+NB_GEN = ('derive:nb_gen', 'nb_gen_vs_pest', 'generated parser vs pest: 18 rules (all kinds/operators) x all strings<=5 chars over 3 alphabets', 'q')
+NB_GEN_SUB = ('derive:nb_gen', 'nb_gen_subinput', 'generated parser: 7 rules x all strings<=4 chars over 2 alphabets x all sub-ranges (Span/Position vs fresh copy)', 'q')
+K_PEG = [
+    ('k_peg', 'peg_seq3_skip', 'bounded', 'q', 'a ~ b ~ a with skip; symbolic input <=5 chars over {a,b,space}; unwind 7'),
+    ('k_peg', 'peg_seq2_atomic', 'bounded', 'q', '@{a ~ b}; symbolic input <=4 chars; unwind 6'),
+    ('k_peg', 'peg_rep_1_2_skip', 'bounded', 'q', 'a{1,2} with skip; symbolic input <=5 chars; unwind 7'),
+]
+
 TECH = 'contract-based deductive verification: Verus on functions extracted mechanically from /repo each run (trait contracts over a PEG denotation), Kani function contracts / loop-free harnesses, labelled Kani-bounded stand-ins'
 NOTE_COMMON = ('Trusts Verus/Z3, Kani/CBMC, the extractor and rewrite table R1-R6 (diff emitted per run; R1 erases the error tracker), '
                'the model of pest::Stack (checked against the real type by Kani within a bound), vstd specs. '
@@ -35,14 +58,8 @@ PROPS = {
         'technique': TECH,
         'verus': ['comb', 'choice', 'nodes', 'seqchk', 'repchk', 'wrappers', 'leaf', 'input'],
         'expanded': True,
-        'kani': [
-            ('k_peg', 'peg_seq3_skip', 'bounded', 'q', 'a ~ b ~ a with skip; symbolic input <=5 chars over {a,b,space}; unwind 7'),
-            ('k_peg', 'peg_seq2_atomic', 'bounded', 'q', '@{a ~ b}; symbolic input <=4 chars; unwind 6'),
-            ('k_peg', 'peg_rep_1_2_skip', 'bounded', 'q', 'a{1,2} with skip; symbolic input <=5 chars; unwind 7'),
-        ],
-        'native': [
-            ('derive:nb_gen', 'nb_gen_vs_pest', 'generated parser vs pest: 18 rules (all kinds/operators) x all strings<=5 chars over 3 alphabets', 'q'),
-        ],
+        'kani': K_PEG,
+        'native': NB_PEG + [NB_PEG_D1, NB_GEN],
         'assumptions': ['sem (PEG denotation with full backtracking, failing empty-stack operations) is pest\'s behaviour where pest is defined',
                         'generator translation of the grammar into the combinator type tree is not verified (DESIGN.md §6)'],
     },
@@ -54,9 +71,7 @@ PROPS = {
         'verus': [],
         'expanded': False,
         'kani': [],
-        'native': [
-            ('derive:nb_gen', 'nb_gen_vs_pest', 'generated parser vs pest: 18 rules (all kinds/operators) x all strings<=5 chars over 3 alphabets', 'q'),
-        ],
+        'native': [NB_GEN],
         'explanation': 'Every (rule, input) pair within the bound is parsed by the pest-generated and the pest-typed-generated parser; trees are compared after pruning atomic tokens in the pest tree. obligations/discharged are zero: nothing is proved beyond the bound.',
         'assumptions': ['pest is the reference'],
     },
@@ -67,14 +82,8 @@ PROPS = {
         'technique': TECH,
         'verus': ['comb', 'choice', 'nodes', 'seqchk', 'repchk', 'wrappers', 'leaf'],
         'expanded': True,
-        'kani': [
-            ('k_peg', 'peg_seq3_skip', 'bounded', 'q', 'a ~ b ~ a with skip; symbolic input <=5 chars over {a,b,space}; unwind 7'),
-            ('k_peg', 'peg_seq2_atomic', 'bounded', 'q', '@{a ~ b}; symbolic input <=4 chars; unwind 6'),
-            ('k_peg', 'peg_rep_1_2_skip', 'bounded', 'q', 'a{1,2} with skip; symbolic input <=5 chars; unwind 7'),
-        ],
-        'native': [
-            ('derive:nb_gen', 'nb_gen_vs_pest', 'generated parser vs pest: 18 rules (all kinds/operators) x all strings<=5 chars over 3 alphabets', 'q'),
-        ],
+        'kani': K_PEG,
+        'native': NB_PEG + [NB_GEN],
         'assumptions': ['R1 (tracker erasure) is behaviour-preserving for match/offset/stack results'],
     },
     'C04': {
@@ -85,9 +94,7 @@ PROPS = {
         'verus': ['wrappers'],
         'expanded': False,
         'kani': [],
-        'native': [
-            ('derive:nb_gen', 'nb_gen_vs_pest', 'generated parser vs pest: 18 rules (all kinds/operators) x all strings<=5 chars over 3 alphabets', 'q'),
-        ],
+        'native': [NB_GEN],
         'assumptions': [],
     },
     'C05': {
@@ -101,11 +108,7 @@ PROPS = {
         'native': [
             ('nb_stackmodel', 'nb_stack_depth1', 'all op sequences of length<=8 over {push(a),push(b),pop,snapshot,clear_snapshot,restore}, snapshot nesting depth<=1', 'q'),
             ('nb_stackmodel', 'nb_stack_nested', 'all op sequences of length<=7, arbitrary nesting', 'q'),
-            ('nb_peg', 'nb_peg_push_pop', 'PUSH(a|b) ~ (POP ~ b | PEEK ~ DROP); all strings<=8 chars over {a,b}', 'q'),
-            ('nb_peg', 'nb_peg_pred', 'PUSH(a){0,2} ~ &POP ~ !b ~ PEEK_ALL; all strings<=8 chars over {a,b}', 'q'),
-            ('nb_peg', 'nb_peg_rep_choice', '(a | b ~ a)+; all strings<=8 chars', 'q'),
-            ('nb_peg', 'nb_peg_d1', 'PUSH(a) ~ ((POP? ~ b) | PEEK); all strings<=6 chars over {a,b}', 'q'),
-        ],
+        ] + NB_PEG_STACK + [NB_PEG_D1],
         'assumptions': ['pest::Stack behaves as the snapshot-stack model (R4); checked within a bound by k_stackmodel'],
     },
     'C06': {
@@ -119,11 +122,7 @@ PROPS = {
             ('k_idx', 'idx_constrain_full', 'complete', 'q', 'all i32 x Option<i32> x len<=i32::MAX'),
             ('k_idx', 'idx_constrain_contract', 'contract', 'q', 'kani contract on constrain_idxs'),
         ],
-        'native': [
-            ('nb_peg', 'nb_peg_slice', 'PUSH(a|b){0,3} ~ PEEK[0..1] ~ PEEK[-1..] ~ POP_ALL; all strings<=9 chars over {a,b}', 'q'),
-            ('nb_peg', 'nb_peg_push_pop', 'PUSH(a|b) ~ (POP ~ b | PEEK ~ DROP); all strings<=8 chars over {a,b}', 'q'),
-            ('nb_peg', 'nb_peg_pred', 'PUSH(a){0,2} ~ &POP ~ !b ~ PEEK_ALL; all strings<=8 chars over {a,b}', 'q'),
-        ],
+        'native': NB_PEG_STACK,
         'assumptions': [
             'stack length <= i32::MAX (precondition of the index arithmetic; `len as i32` wraps beyond it — D6 in DESIGN.md)',
         ],
@@ -135,14 +134,8 @@ PROPS = {
         'technique': TECH,
         'verus': ['seqchk', 'repchk', 'wrappers'],
         'expanded': True,
-        'kani': [
-            ('k_peg', 'peg_seq3_skip', 'bounded', 'q', 'a ~ b ~ a with skip; symbolic input <=5 chars over {a,b,space}; unwind 7'),
-            ('k_peg', 'peg_seq2_atomic', 'bounded', 'q', '@{a ~ b}; symbolic input <=4 chars; unwind 6'),
-            ('k_peg', 'peg_rep_1_2_skip', 'bounded', 'q', 'a{1,2} with skip; symbolic input <=5 chars; unwind 7'),
-        ],
-        'native': [
-            ('derive:nb_gen', 'nb_gen_vs_pest', 'generated parser vs pest: 18 rules (all kinds/operators) x all strings<=5 chars over 3 alphabets', 'q'),
-        ],
+        'kani': K_PEG,
+        'native': NB_PEG + [NB_GEN],
         'assumptions': ['which of 0 / 1 / INHERITED reaches each rule reference is decided by generator code outside the verified set'],
     },
     'C08': {
@@ -232,9 +225,7 @@ PROPS = {
         'verus': [],
         'expanded': False,
         'kani': [],
-        'native': [
-            ('derive:nb_gen', 'nb_gen_vs_pest', 'generated parser vs pest: 18 rules (all kinds/operators) x all strings<=5 chars over 3 alphabets', 'q'),
-        ],
+        'native': [NB_GEN],
         'explanation': 'The traversal helpers are run on the real tree of every accepted (rule, input) pair within the bound and compared with a recursive reference traversal written in the test.',
         'assumptions': [],
     },
@@ -319,11 +310,8 @@ PROPS = {
         'technique': TECH,
         'verus': ['comb', 'repchk'],
         'expanded': False,
-        'kani': [
-            ('k_peg', 'peg_seq3_skip', 'bounded', 'q', 'a ~ b ~ a with skip; symbolic input <=5 chars over {a,b,space}; unwind 7'),
-            ('k_peg', 'peg_seq2_atomic', 'bounded', 'q', '@{a ~ b}; symbolic input <=4 chars; unwind 6'),
-            ('k_peg', 'peg_rep_1_2_skip', 'bounded', 'q', 'a{1,2} with skip; symbolic input <=5 chars; unwind 7'),
-        ],
+        'kani': K_PEG,
+        'native': NB_PEG,
         'assumptions': ['partial correctness for the unbounded repetition loop'],
     },
 }
